@@ -11,7 +11,7 @@ PID = "C16"
 LEVEL = "exploration"
 RULE = ("generated operation histories (<=40 steps) over a NonBondEngine with 2-4 molecules x 1-6 nodes in a "
         "rectangular periodic box: add(start=True/False) on an unpositioned node, remove(subset incl. "
-        "unpositioned nodes / whole molecule), concatenate, re-add, and queries get_point, compute_force_point "
+        "unpositioned nodes / whole molecule), concatenate, re-add, and queries get_point, update_positions_in_molecules, compute_force_point "
         "(with exclusions), pbc_min_dist; 8% of histories start from 5001 positioned dummies, place nodes before and after the "
         "start placement that opens a second search tree, remove some and ask for the force where they were. After every step the engine is compared with a dict model: "
         "positions, brute-force minimum-image 12-6 force (analytic and by numerical gradient), internal index "
@@ -67,7 +67,10 @@ def _strategy(draw):
                             "exclude_mask": 0})
     nsteps = draw(st.integers(5, 40 if not large else 8))
     for _ in range(nsteps):
-        kind = draw(st.sampled_from(["add", "add", "add", "remove", "force", "force", "get", "concat", "dist"]))
+        kind = draw(st.sampled_from(["add", "add", "add", "remove", "force", "force", "get", "concat", "dist", "sync"]))
+        if kind == "sync":
+            ops.append({"op": "sync"})
+            continue
         if kind == "add":
             ops.append({"op": "add", "pick": draw(st.integers(0, 100)), "point": draw(_coord(box)),
                         "start": draw(st.booleans()), "near": draw(st.integers(0, 2)) == 0,
@@ -149,6 +152,7 @@ def check(spec, ctx):
     emptied = False
     ghosts = []
     asked_at_ghost = False
+    synced = False
 
     def brute_force(point, mol, node, exclude):
         """returns (force vector or inf, ambiguous?) from the model"""
@@ -233,6 +237,28 @@ def check(spec, ctx):
                     emptied = True
             elif kind == "concat":
                 engine.concatenate_trees()
+            elif kind == "sync":
+                # the bulk query: every node of every molecule gets the engine's current answer, also nodes that
+                # brought their own coordinates along (supplied input) and have been removed since
+                import networkx as nx
+                mols = []
+                for mol, size in enumerate(sizes):
+                    g = nx.Graph()
+                    for node in range(size):
+                        g.add_node(node, position=np.array([1.0 + mol, 2.0 + node, 3.0]))
+                    mols.append(g)
+                engine.update_positions_in_molecules(mols)
+                for mol, size in enumerate(sizes):
+                    for node in range(size):
+                        got = np.asarray(mols[mol].nodes[node].get("position"), dtype=float)
+                        if (mol, node) in model:
+                            if got.shape != (3,) or not np.allclose(got, model[(mol, node)], rtol=0, atol=1e-12):
+                                raise Violation("bulk_positions:stale", f"step {step}: node {(mol, node)} reported at {got}, "
+                                                                        f"expected {model[(mol, node)]}")
+                        elif got.shape != (3,) or not np.all(np.isinf(got)):
+                            raise Violation("bulk_positions:not_undefined", f"step {step}: node {(mol, node)} has no position "
+                                                                            f"in the engine but is reported at {got}")
+                synced = True
             elif kind == "get":
                 mol, node = op["mol"], op["node"] % sizes[op["mol"]]
                 got = engine.get_point(mol, node)
@@ -320,6 +346,8 @@ def check(spec, ctx):
         for key, pos in list(model.items())[:8]:
             if not np.allclose(engine.get_point(*key), pos, atol=1e-12):
                 raise Violation("get_point:stale", f"step {step}: node {key}")
+    if synced:
+        ctx.label("bulk_position_query")
     if opened_second_tree:
         ctx.label("second_tree_opened")
     if opened_second_tree and asked_at_ghost:
